@@ -624,6 +624,10 @@ def run(ctx, rep) -> None:
     from .c03 import _Proxy
 
     rep.attempt("_step_counter", _step_counter, ctx, _Proxy(rep, "C01.4", "C04.4"))
+    from .c01 import _wiring
+
+    rep.rule("C04.8", "every helper of the group loop (masking included) works on the loop's own param group and state lists; per-step flags are this group's")
+    rep.attempt("_wiring", _wiring, ctx, _Proxy(rep, "C01.5", "C04.8"))
     from .common import per_group_fresh
 
     rep.attempt("per_group_fresh", per_group_fresh, ctx, rep, "C04.4", [f"{DS}.{n}" for n in ("_instantiate_distributor", "_instantiate_steps", "_instantiate_momentum", "_instantiate_filtered_grads")])
